@@ -1279,7 +1279,7 @@ func main() {
 		}
 	}
 	r := hx.NewRand(ctx.Seed)
-	nt := ctx.Scale(9000, 200000)
+	nt := ctx.Scale(7000, 200000)
 	if os.Getenv("C06_SKIP_TRIE") != "" {
 		nt = 0
 	}
@@ -1293,7 +1293,7 @@ func main() {
 		runTrieCases(ctx, batch)
 		done += n
 	}
-	ns := ctx.Scale(4000, 60000)
+	ns := ctx.Scale(3000, 60000)
 	rs := r.Fork(2)
 	for done := 0; done < ns; {
 		n := min(100, ns-done)
